@@ -24,6 +24,9 @@ INVARIANT OrdIsTotalOrder
 INVARIANT ConcatIsMonoid
 INVARIANT SwapVisible
 INVARIANT TableDistinct
+INVARIANT InnerDiffers
+INVARIANT ProjectionsDoNotCommute
+INVARIANT RotIsPermutation
 INVARIANT Emit
 CHECK_DEADLOCK FALSE
 """
@@ -108,12 +111,14 @@ def show(v, inst, int_names):
 
 
 def describe(t, int_names=INT_NAMES):
-    ints = int_names and t["inst"] in ("eq.Int", "ord.Int", "eq.From/int", "ord.From/int", "eq.ContraMap/tab/eq.String",
-                                       "ord.ContraMap/tab/ord.String", "ord.ContraMap/flip/ord.Int", "eq.ContraMap/flip/rel")
+    # instances over the boundary-integer table: their arguments are table indices
+    ints = int_names and isinstance(t["a"], int) and not t["inst"].endswith("/sub")
     sh = (lambda v: int_names[v - 1]) if ints else (lambda v: show(v, t["inst"], int_names))
     s = "%s on (%s, %s)" % (t["inst"], sh(t["a"]), sh(t["b"]))
     if t["inst"].startswith("monoid."):
         s += " with empty %s" % show(t["e"], t["inst"], int_names)
+        if t.get("inner") not in (None, 0) or "/monoid." in t["inst"]:
+            s += " (the argument belongs to an inner monoid with empty %s)" % show(t.get("inner"), t["inst"], int_names)
     return s
 
 
@@ -140,26 +145,23 @@ def judge(run, recs, d, tag, int_names=INT_NAMES):
         if r.violated:
             raise Infra("AlgebraTrace stopped: " + r.out[-2000:])
         done = 0
-        for v in r.json_prints():
-            if v.get("t") == "DONE":
-                done += 1
-            elif v.get("t") == "PVIOL":
-                t = part[v["ti"] - 1]
-                preds = sorted(v["preds"])
-                if preds == ["Result"] and (lo + v["ti"] - 1) in flagged:
-                    continue            # already reported from the table comparison
+        for v in r.json_prints("JUDGED"):
+            done += 1
+            t = part[v["ti"] - 1]
+            preds = sorted(v["preds"])
+            if "HARNESS" in preds:
+                raise Infra("harness built a nested monoid whose inner empty equals the given one: %s" % json.dumps(t))
+            if preds and not (preds == ["Result"] and (lo + v["ti"] - 1) in flagged):     # (else: already reported from the table)
                 extra = "Empty() returned %s; " % show(t.get("empty"), "", None) if "Empty" in preds else ""
                 run.violation({"kind": preds[0], "inst": t["inst"]},
                               "%s: %s (%sreturned %s, promised %s, inner calls %s)"
                               % (describe(t, int_names), "; ".join(WHAT[p] for p in preds), extra, show(t["res"], "", None),
                                  show(v["want"], "", None), json.dumps(t["calls"])),
                               {"mode": "record", "record": t, "preds": preds})
-            elif v.get("t") == "DRIFT":
-                t = part[v["ti"] - 1]
-                if t["inst"] not in drift_seen:
-                    drift_seen.add(t["inst"])
-                    run.drift.append("%s: inner call log differs from the code-shaped model at line %d: %s"
-                                     % (describe(t, int_names), v["line"], json.dumps(t["calls"])))
+            if v["drift"] and t["inst"] not in drift_seen:
+                drift_seen.add(t["inst"])
+                run.drift.append("%s: inner call log differs from the code-shaped model at line %d: %s"
+                                 % (describe(t, int_names), v["drift"], json.dumps(t["calls"])))
         if done != len(part):
             raise Infra("AlgebraTrace judged %d of %d records" % (done, len(part)))
         run.add_mc("AlgebraTrace", r, {"records": len(part), "inner_calls": sum(len(t["calls"]) for t in part)})
@@ -171,6 +173,6 @@ def do_replay(run, binp, path, d, domf):
     t = json.load(open(path))["payload"]["record"]
     # (records of the random tier carry table indices too: Eq / Ord see only the order of the table, so the
     #  re-execution on the boundary table is the same experiment)
-    case = {"inst": t["inst"], "e": t["e"], "a": t["a"], "b": t["b"]}
+    case = {"inst": t["inst"], "e": t["e"], "inner": t.get("inner", 0), "a": t["a"], "b": t["b"]}
     recs = execute(binp, d, domf, "replay", cases=[case])
     judge(run, recs, d, "replay")
